@@ -524,7 +524,13 @@ def ambient_gate(ck):
             return any(ambient_term(x) for x in t)
         return False
     n = 0
-    for fn in sorted(ck.functions):
+    # (a rule that analysed a closure relies on the enclosing function getting as far as calling it)
+    fns = set(ck.functions)
+    for fn in list(fns):
+        while "::{closure" in fn:
+            fn = fn[:fn.rindex("::{closure")]
+            fns.add(fn)
+    for fn in sorted(fns):
         b = None
         for F in facts:
             b = F.body(fn)
@@ -726,4 +732,15 @@ def relation_held(text, val):
                     a, b = b, a
                 return (a, rel, b)
             return None
+    return None
+
+
+def closure_arg(body, operand):
+    """def path of the closure an operand of a call holds (a capturing closure is an aggregate, a non-capturing one a
+    constant), else None."""
+    o = body.origin(operand)
+    if o[0] == "agg":
+        return o[1].get("agg", {}).get("closure")
+    if o[0] == "const":
+        return o[1].get("closure")
     return None
